@@ -4,7 +4,8 @@
 From Coq Require Import ZArith List Lia Bool.
 From MomoCommon Require Import GenPrelude.
 From C08 Require Gen_GrowCapacity Gen_ArrayBucket Gen_ArrayBucket_cnt Gen_ArrayBucket_s.
-From C08 Require Import ArrayBucketModel.
+From C08 Require Gen_HashMultiMap.
+From C08 Require Import ArrayBucketModel MultiMapModel VersionModel.
 Local Open Scope Z_scope.
 
 Lemma wrapU8_wrap8 x : wrapU 8 x = wrap8 x.
@@ -102,3 +103,83 @@ Theorem same_code_array_bucket_instantiations :
   Gen_ArrayBucket_s.pvGetFastMemPoolIndex = Gen_ArrayBucket.pvGetFastMemPoolIndex /\
   Gen_ArrayBucket_s.pvGetMemPoolIndex = Gen_ArrayBucket.pvGetMemPoolIndex.
 Proof. repeat split; reflexivity. Qed.
+
+(* ================================================================ HashMultiMap: mValueCount / valueVersion / returned position *)
+(* Gen_HashMultiMap.v = pvAddValue (1233-1240), Remove(ConstIterator) (1059-1074), pvRemoveValues (1242-1248), Clear (872-881)
+   translated with the calls into the value array / nested map skipped: what remains is exactly their arithmetic on
+   mValueCount and the version counter, and the arguments (valueIndex, move) of the pvMakeIterator that Remove returns. *)
+Definition no_wrap (x : Z) : Prop := 0 <= x < 2 ^ 63.
+
+(* Remove(iter): count - 1, version + 1, and the returned iterator is pvMakeIterator(key, THE SAME valueIndex, move = TRUE):
+   it is moved on to the next pair when the hole was the key's last value (C08_remove_returns_rest_of_traversal then says
+   where that is) -- this is the statement the seeded change `move = keyEmptied` violates *)
+Theorem gen_remove_iter (null : bool) cnt ver ri rm idx : no_wrap (cnt - 1) -> no_wrap ver ->
+  Gen_HashMultiMap.Remove_iter cnt ver ri rm idx = (cnt - 1, ver + 1, idx, true).
+Proof.
+  intros [A1 A2] [B1 B2]. unfold Gen_HashMultiMap.Remove_iter.
+  rewrite !wrapU_small by (change (2 ^ 64) with (2 * 2 ^ 63); lia). reflexivity.
+Qed.
+
+Theorem gen_add_value cnt ver ri rm : no_wrap cnt -> no_wrap ver ->
+  Gen_HashMultiMap.pvAddValue cnt ver ri rm = (cnt + 1, ver + 1).
+Proof.
+  intros [A1 A2] [B1 B2]. unfold Gen_HashMultiMap.pvAddValue.
+  rewrite !wrapU_small by (change (2 ^ 64) with (2 * 2 ^ 63); lia). reflexivity.
+Qed.
+
+Theorem gen_remove_values cnt ver ri rm count : 0 <= count <= cnt -> no_wrap cnt -> no_wrap ver ->
+  Gen_HashMultiMap.pvRemoveValues cnt ver ri rm count = (cnt - count, ver + 1).
+Proof.
+  intros H [A1 A2] [B1 B2]. unfold Gen_HashMultiMap.pvRemoveValues.
+  rewrite !wrapU_small by (change (2 ^ 64) with (2 * 2 ^ 63); lia). reflexivity.
+Qed.
+
+Theorem gen_clear (null : bool) cnt ver ri rm : no_wrap ver ->
+  Gen_HashMultiMap.Clear null cnt ver ri rm = if null then (cnt, ver) else (0, ver + 1).
+Proof.
+  intros [B1 B2]. unfold Gen_HashMultiMap.Clear. destruct null; simpl; [reflexivity|].
+  rewrite wrapU_small by (change (2 ^ 64) with (2 * 2 ^ 63); lia). reflexivity.
+Qed.
+
+(* the hand model's count / version bookkeeping IS the generated code, operation by operation (c = a live container) *)
+Theorem model_counts_via_generated M (c : vmm) : vlive c = true -> no_wrap (snd (fst c)) -> no_wrap (vver c) -> Inv M (fst c) ->
+  let m := fst c in
+  (forall k t v, (snd (fst (vstep1 M c (OAdd k t v))), vver (vstep1 M c (OAdd k t v))) =
+                 Gen_HashMultiMap.pvAddValue (snd m) (vver c) 0 false) /\
+  (forall k i e, find k (fst m) = Some e -> (i < length (evals e))%nat ->
+     (snd (fst (vstep1 M c (ORemove k i))), vver (vstep1 M c (ORemove k i)), Z.of_nat i, true) =
+     Gen_HashMultiMap.Remove_iter (snd m) (vver c) 0 false (Z.of_nat i)) /\
+  (forall k e, find k (fst m) = Some e ->
+     (snd (fst (vstep1 M c (ORemoveValues k))), vver (vstep1 M c (ORemoveValues k))) =
+     Gen_HashMultiMap.pvRemoveValues (snd m) (vver c) 0 false (elen e) /\
+     (snd (fst (vstep1 M c (ORemoveKey k))), vver (vstep1 M c (ORemoveKey k))) =
+     Gen_HashMultiMap.pvRemoveValues (snd m) (vver c) 0 false (elen e)) /\
+  (snd (fst (vstep1 M c OClear)), vver (vstep1 M c OClear)) = Gen_HashMultiMap.Clear false (snd m) (vver c) 0 false.
+Proof.
+  intros L NC NV HI m. destruct c as [[es n] [ver live]]. unfold vlive in L. simpl in L. subst live. unfold vver in *. simpl in *.
+  destruct HI as (ND & CN & AB). simpl in CN.
+  split; [|split; [|split]].
+  - intros k t v. rewrite gen_add_value by auto. unfold vstep1, vlive, vver. simpl. unfold add1. simpl.
+    destruct (find k es); reflexivity.
+  - intros k i e F Hi.
+    assert (1 <= n).
+    { subst n. clear - F Hi. induction es as [|a r IH]; simpl in *; [discriminate|].
+      pose proof (sumlen_nonneg r). destruct (ekey a =? k).
+      - inversion F; subst. unfold elen. lia.
+      - specialize (IH F). unfold elen. lia. }
+    rewrite (gen_remove_iter false) by (unfold no_wrap in *; try lia; auto).
+    unfold vstep1, vlive, vver. simpl. rewrite F. destruct (Nat.ltb_spec i (length (evals e))); [|lia]. reflexivity.
+  - intros k e F.
+    assert (0 <= elen e <= n).
+    { subst n. clear - F. induction es as [|a r IH]; simpl in *; [discriminate|].
+      pose proof (sumlen_nonneg r). destruct (ekey a =? k).
+      - inversion F; subst. unfold elen. lia.
+      - specialize (IH F). unfold elen in *. lia. }
+    rewrite gen_remove_values by auto. unfold vstep1, vlive, vver. simpl. rewrite F. simpl. auto.
+  - rewrite gen_clear by auto. reflexivity.
+Qed.
+
+(* a moved-from container: the generated Clear with a null crew changes nothing, as vstep1 on the dead state *)
+Theorem dead_clear_via_generated cnt ver : no_wrap ver ->
+  Gen_HashMultiMap.Clear true cnt ver 0 false = (cnt, ver).
+Proof. intros H. rewrite gen_clear by auto. reflexivity. Qed.
